@@ -115,7 +115,9 @@ Proof.
   set (ts := ((ex - sx) * (zx - sx) + (ey - sy) * (zy - sy)) / D).
   set (P := fun t => line_point NumR (sx, sy) (ex, ey) t).
   set (Q := fun t => sqd (P t) (zx, zy)).
-  assert (QF : forall t, Q t = q D (Q ts) ts t) by (intros t; apply (Q_form sx sy ex ey zx zy Hne)).
+  pose (qs := Q ts).
+  assert (QF : forall t, Q t = q D qs ts t) by (intros t; apply (Q_form sx sy ex ey zx zy Hne)).
+  clearbody qs.
   assert (Dt : forall t, dist (P t) (zx, zy) = sqrt (Q t)) by (intros; apply dist_sqrt).
   assert (Qnn : forall t, 0 <= Q t) by (intros; apply sqd_nonneg).
   assert (E0 : cabs NumTR (csub NumR (sx, sy) (zx, zy)) = sqrt (Q 0)).
@@ -182,7 +184,7 @@ Section PolyC.
     - destruct c, z. cbn [shift_const map]. rewrite !peval_cons, peval_nil. cunfold. numR. cbn. ring.
     - change (shift_const NumR (c :: d :: p) z) with (c :: shift_const NumR (d :: p) z).
       cbn [map]. rewrite !peval_cons. rewrite !map_length, shift_const_length.
-      rewrite (IH ltac:(congruence)). cbn [map length]. rewrite map_length. ring.
+      rewrite (IH ltac:(congruence)). cbn [map length]. rewrite ?peval_cons, ?map_length. ring.
   Qed.
   Lemma shift_const_im p z t : p <> [] ->
     peval NumR (map (@im R) (shift_const NumR p z)) t = peval NumR (map (@im R) p) t - im z.
@@ -191,7 +193,7 @@ Section PolyC.
     - destruct c, z. cbn [shift_const map]. rewrite !peval_cons, peval_nil. cunfold. numR. cbn. ring.
     - change (shift_const NumR (c :: d :: p) z) with (c :: shift_const NumR (d :: p) z).
       cbn [map]. rewrite !peval_cons. rewrite !map_length, shift_const_length.
-      rewrite (IH ltac:(congruence)). cbn [map length]. rewrite map_length. ring.
+      rewrite (IH ltac:(congruence)). cbn [map length]. rewrite ?peval_cons, ?map_length. ring.
   Qed.
 
   (* r_squared evaluates to |poly(t) - z|^2 *)
@@ -212,10 +214,13 @@ Section BezierRadial.
 
   Notation G := (peval NumR (r_squared NumR p z)).
   Notation cands := (radial_cands NumR atol rtol roots).
-  Notation rad := (fun t => cabs NumTR (csub NumR (point t) z)).
+  Definition rad (t : R) : R := cabs NumTR (csub NumR (point t) z).
+  Definition ext : list (R * R) := map (fun t => (rad t, t)) cands.
+  Lemma brr_unfold : bezier_radialrange NumR NumTR atol rtol point z roots = (kmin NumR ext, kmax NumR ext).
+  Proof. reflexivity. Qed.
 
   Lemma rad_sqrt t : rad t = sqrt (G t).
-  Proof. rewrite dist_sqrt, r_squared_eval by exact Hp. now rewrite Hpoint. Qed.
+  Proof. unfold rad. rewrite dist_sqrt, r_squared_eval by exact Hp. now rewrite Hpoint. Qed.
   Lemma G_nonneg t : 0 <= G t.
   Proof. rewrite r_squared_eval by exact Hp. apply sqd_nonneg. Qed.
   Lemma cands_01 c : In c cands -> 0 <= c <= 1.
@@ -230,14 +235,13 @@ Section BezierRadial.
     let '((dmin, tmin), (dmax, tmax)) := bezier_radialrange NumR NumTR atol rtol point z roots in
     0 <= tmin <= 1 /\ 0 <= tmax <= 1 /\ dmin = dist (point tmin) z /\ dmax = dist (point tmax) z.
   Proof.
-    unfold bezier_radialrange.
-    set (ext := map (fun t => (rad t, t)) cands).
+    rewrite brr_unfold.
     assert (Hne : ext <> []) by (unfold ext, radial_cands; cbn; congruence).
     pose proof (kminR_in Hne) as Hmin. pose proof (kmaxR_in Hne) as Hmax.
     destruct (kmin NumR ext) as [dmin tmin]. destruct (kmax NumR ext) as [dmax tmax].
     apply in_map_iff in Hmin. destruct Hmin as (c & E & Hc). inversion E; subst.
     apply in_map_iff in Hmax. destruct Hmax as (c' & E' & Hc'). inversion E'; subst.
-    repeat split; try apply (cands_01 _ Hc); try apply (cands_01 _ Hc').
+    repeat split; try apply (cands_01 _ Hc); try apply (cands_01 _ Hc'); reflexivity.
   Qed.
 
   (* global under the oracle contract *)
@@ -246,8 +250,7 @@ Section BezierRadial.
     let '((dmin, tmin), (dmax, tmax)) := bezier_radialrange NumR NumTR atol rtol point z roots in
     forall t, 0 <= t <= 1 -> dmin <= dist (point t) z <= dmax.
   Proof.
-    intros Hor Hsep. unfold bezier_radialrange.
-    set (ext := map (fun t => (rad t, t)) cands).
+    intros Hor Hsep. rewrite brr_unfold.
     pose proof (@kminR_le ext) as Hmin. pose proof (@kmaxR_ge ext) as Hmax.
     destruct (kmin NumR ext) as [dmin tmin]. destruct (kmax NumR ext) as [dmax tmax].
     cbn [fst] in *. intros t Ht.
@@ -260,6 +263,7 @@ Section BezierRadial.
     destruct (@extreme_at_candidates_nz_ex G _ (peval_derivable _) _ Hcs t Ht)
       as [(c & Hc & Hle) (c' & Hc' & Hge)].
     change (0 :: 1 :: polyroots01 NumR atol rtol roots) with cands in Hc, Hc'.
+    change (cabs NumTR (csub NumR (point t) z)) with (rad t).
     split.
     - eapply Rle_trans; [apply (Hmin (rad c, c))|].
       + unfold ext. apply in_map_iff. exists c; auto.
@@ -274,7 +278,7 @@ End BezierRadial.
 Section PathRadial.
   Context {K : Type} (N : Num K) (OK : OrdOK N).
   Notation seg_t := ((K * K) * (K * K))%type.
-  Notation st_t := (gmin_t K * gmax_t K)%type.
+  Notation st_t := (@gmin_t K * @gmax_t K)%type.
 
   Definition Inv (pre : list seg_t) (st : st_t) : Prop :=
     (match fst st with
@@ -363,3 +367,63 @@ Section PathRadial.
     - subst d. specialize (I2 sg Hin). unfold nle in I2. congruence.
   Qed.
 End PathRadial.
+
+(* ================= path level over R: composition with per-segment globality ================= *)
+Definition seg_global (c : R -> Cplx R) (z : Cplx R) (r : (R * R) * (R * R)) : Prop :=
+  let '((dmin, tmin), (dmax, tmax)) := r in
+  0 <= tmin <= 1 /\ 0 <= tmax <= 1 /\ dmin = dist (c tmin) z /\ dmax = dist (c tmax) z /\
+  forall t, 0 <= t <= 1 -> dmin <= dist (c t) z <= dmax.
+
+Section PathGlobalR.
+  Variables (segs : list ((R -> Cplx R) * ((R * R) * (R * R)))) (z : Cplx R).
+  Hypothesis Hne : segs <> [].
+  Hypothesis Hseg : forall c r, In (c, r) segs -> seg_global c z r.
+  Let res := map snd segs.
+
+  Lemma nth_res i r : nth_error res i = Some r -> exists c, nth_error segs i = Some (c, r).
+  Proof.
+    unfold res. rewrite nth_error_map. destruct (nth_error segs i) as [[c r']|]; cbn; [|discriminate].
+    intros E. inversion E; subst. exists c; reflexivity.
+  Qed.
+
+  Theorem path_closest_global :
+    exists d t i c r, closest_point_in_path NumR res = Some (d, t, i) /\
+      nth_error segs i = Some (c, r) /\ 0 <= t <= 1 /\ d = dist (c t) z /\
+      forall c' r' u, In (c', r') segs -> 0 <= u <= 1 -> d <= dist (c' u) z.
+  Proof.
+    assert (Hne' : res <> []) by (unfold res; destruct segs; cbn; congruence).
+    destruct (path_radial_min NumR OrdOK_R res Hne') as (d & t & i & mx & E & Hn & Hall).
+    destruct (nth_res _ _ Hn) as (c & Hc).
+    pose proof (Hseg c _ (nth_error_In _ _ Hc)) as G. destruct mx as [dmax tmax]. unfold seg_global in G.
+    destruct G as (Ht & _ & Ed & _ & _).
+    exists d, t, i, c, ((d, t), (dmax, tmax)). repeat split; auto; try lra.
+    intros c' r' u Hin Hu.
+    assert (Hr : In r' res) by (unfold res; apply in_map_iff; exists (c', r'); auto).
+    specialize (Hall r' Hr). apply nle_R in Hall.
+    pose proof (Hseg c' r' Hin) as G'. destruct r' as [[dmin' tmin'] [dmax' tmax']]. unfold seg_global in G'. cbn [fst snd] in Hall.
+    destruct G' as (_ & _ & _ & _ & G'). specialize (G' u Hu). lra.
+  Qed.
+
+  Theorem path_farthest_global :
+    (exists c r, In (c, r) segs /\ 0 < fst (snd r)) ->
+    exists d t i c r, farthest_point_in_path NumR res = (d, Some (t, i)) /\
+      nth_error segs i = Some (c, r) /\ 0 <= t <= 1 /\ d = dist (c t) z /\
+      forall c' r' u, In (c', r') segs -> 0 <= u <= 1 -> dist (c' u) z <= d.
+  Proof.
+    intros (c0 & r0 & Hin0 & Hpos).
+    pose proof (path_radial_max NumR OrdOK_R res) as H.
+    destruct (farthest_point_in_path NumR res) as [d o]. destruct H as [Hall Hidx].
+    destruct Hidx as (t & i & mn & -> & Hn).
+    { exists r0. split; [unfold res; apply in_map_iff; exists (c0, r0); auto|].
+      cbn [ltb NumR zero]. apply Rlt_b_true. exact Hpos. }
+    destruct (nth_res _ _ Hn) as (c & Hc).
+    pose proof (Hseg c _ (nth_error_In _ _ Hc)) as G. destruct mn as [dmin tmin]. unfold seg_global in G.
+    destruct G as (_ & Ht & _ & Ed & _).
+    exists d, t, i, c, ((dmin, tmin), (d, t)). repeat split; auto; try lra.
+    intros c' r' u Hin Hu.
+    assert (Hr : In r' res) by (unfold res; apply in_map_iff; exists (c', r'); auto).
+    specialize (Hall r' Hr). apply nle_R in Hall.
+    pose proof (Hseg c' r' Hin) as G'. destruct r' as [[dmin' tmin'] [dmax' tmax']]. unfold seg_global in G'. cbn [fst snd] in Hall.
+    destruct G' as (_ & _ & _ & _ & G'). specialize (G' u Hu). lra.
+  Qed.
+End PathGlobalR.
